@@ -51,6 +51,10 @@ type Hdr struct {
 type Entry struct {
 	F   string `json:"f"`
 	Req bool   `json:"req"`
+	// Alias: the advertised element carries the feature's NAMESPACE but another local name - it is not
+	// the feature (a feature is named by namespace and local name), so for the specification it is an
+	// unknown entry
+	Alias bool `json:"alias,omitempty"`
 }
 
 type Sel struct {
@@ -376,6 +380,11 @@ func (r *run) sendList() bool {
 		if e.Req {
 			req = " req='1'"
 		}
+		if e.Alias {
+			s += fmt.Sprintf("<x%s xmlns='%s'%s/>", n.Local, n.Space, req)
+			items = append(items, vt.Ev{"f": "unk", "req": e.Req})
+			continue
+		}
 		s += fmt.Sprintf("<%s xmlns='%s'%s/>", n.Local, n.Space, req)
 		items = append(items, vt.Ev{"f": e.F, "req": e.Req})
 	}
@@ -673,7 +682,11 @@ func genScenario(rnd *rand.Rand, ids []string, faults bool) Scenario {
 	uni := append(append([]string{}, sc.Cfg...), "unk")
 	mkEntry := func(f string) Entry {
 		// every feature is advertised as mandatory or as voluntary, also one whose step reports Ready
-		return Entry{F: f, Req: rnd.Intn(2) == 0}
+		e := Entry{F: f, Req: rnd.Intn(2) == 0}
+		if f != "unk" && rnd.Intn(8) == 0 {
+			e.Alias = true // a look-alike: same namespace, other local name
+		}
+		return e
 	}
 	for i := 0; i < 4; i++ {
 		var l []Entry
